@@ -1385,6 +1385,7 @@ def _eval_configs(acc, h, layout, configs, steps, mode, work, refcache, standalo
 
 QUICK_STEPS = ("commit", "pack", "repack", "pack-loose", "delref", "delref+gc", "retag", "retag+gc", "repack-excl", "deltag+gc")
 QUICK_LIVE_STEPS = ("commit", "pack", "repack", "delref+gc", "retag", "retag+gc")
+THOROUGH_LIVE_STEPS = ("commit", "pack", "repack", "pack-loose", "delref+gc", "retag", "retag+gc", "deltag+gc")
 LIVE_FIRST_STEPS = {True: ("pack", "delref+gc", "retag+gc"), False: ("pack", "repack", "delref+gc", "retag+gc")}
 LIVE_FIRST_LAYOUTS = {True: ("pack1", "pack2"), False: ("pack1", "pack2")}
 MAIN_LAYOUTS = ("loose", "pack1", "pack2", "mixed")
@@ -1431,7 +1432,7 @@ def plan_for(layout, tier, light=False, first=False):
                 plan.append(("live", [()] + singles_d, [None] + list(QUICK_LIVE_STEPS)))
         elif not light:
             lv_cfg = [()] + singles_d + [full_d, (("cg", "g"),), (("midx", "g"),), (("prefs", "g"),)]
-            plan.append(("live", lv_cfg, [None] + list(QUICK_STEPS)))
+            plan.append(("live", lv_cfg, [None] + list(THOROUGH_LIVE_STEPS)))
         # live-first: every query in turn is the FIRST one a warmed-up long-lived Repo is asked after the step
         if first and layout in LIVE_FIRST_LAYOUTS[q]:
             lf_cfg = [()] + singles_d + ([] if q else [(("prefs", "g"),)])
@@ -2010,9 +2011,9 @@ def run(ctx):
         "(no step + %d steps); extra layouts: none/midx/bitmap%s x (no step + %d steps)"
         % (WRITERS, "cg[g], prefs[g]" if q else "cg[g], cg[d-all], midx[g], bitmap[g], prefs[g], full C-git set",
            len(QUICK_STEPS if q else STEPS), "" if q else " + full set + cg[g], midx[g], prefs[g]",
-           len(QUICK_LIVE_STEPS if q else QUICK_STEPS), "" if q else "/cg/full set/midx[g]", 3 if q else 5))
+           len(QUICK_LIVE_STEPS if q else THOROUGH_LIVE_STEPS), "" if q else "/cg/full set/midx[g]", 3 if q else 5))
     bounds["steps"] = list(QUICK_STEPS if q else STEPS)
-    bounds["live steps"] = list(QUICK_LIVE_STEPS if q else QUICK_STEPS)
+    bounds["live steps"] = list(QUICK_LIVE_STEPS if q else THOROUGH_LIVE_STEPS)
     # ---- foreign
     fp = foreign_pairs()
     pairs = [(s, d, k, w) for w in (("d",) if q else ("d", "g")) for (s, d) in fp for k in ("cg", "midx", "bitmap")]
